@@ -24,8 +24,14 @@ from yaql.language import exceptions, expressions, factory, utils
 from yaql import legacy
 
 ID = 'C02'
-LEAN_MODULES = ['Yaql.Props.C02', 'Yaql.Props.C02Gen', 'Yaql.Props.C03Parse']
+LEAN_MODULES = ['Yaql.Props.C02', 'Yaql.Props.C02Table', 'Yaql.Props.C02Gen', 'Yaql.Props.C03Parse']
 REQUIRED_THEOREMS = [
+    'Yaql.Props.C02.parse_sound', 'Yaql.Props.C02.parse_roundtrip', 'Yaql.Props.C02.parse_unique',
+    'Yaql.Props.C02.yield_injective',
+    'Yaql.Props.C02Table.insert_same_group', 'Yaql.Props.C02Table.insert_new_group',
+    'Yaql.Props.C02Table.insert_front',
+    'Yaql.Props.C03Parse.parse_total_classified', 'Yaql.Props.C03Parse.error_at_first_rejected_token',
+    'Yaql.Props.C03Parse.error_none_only_at_end',
     'Yaql.Props.C02Gen.default_tuple', 'Yaql.Props.C02Gen.legacy_tuple',
     'Yaql.Props.C02Gen.defaultDelegates_tuple', 'Yaql.Props.C02Gen.legacyDelegates_tuple',
     'Yaql.Props.C02Gen.default_ops', 'Yaql.Props.C02Gen.legacy_ops',
@@ -1102,6 +1108,10 @@ def run(env, res):
         except exceptions.InvalidOperatorTableException:
             hist['custom_invalid'] = hist.get('custom_invalid', 0) + 1
             continue
+        except Exception as ex:     # noqa - the factory cannot build an engine for a valid table
+            res.fail('oracle', 'engine-build', '[%s %s] factory.create() raised %r' % (kind, ins, ex),
+                     dict(kind=kind, delegates=delegates, inserts=ins, text=None))
+            continue
         built += 1
         hist['custom_homogeneous' if e.homogeneous else 'custom_mixed_groups'] = \
             hist.get('custom_homogeneous' if e.homogeneous else 'custom_mixed_groups', 0) + 1
@@ -1154,7 +1164,12 @@ def run(env, res):
                            dict(ex='not', bin=False, sym='<-', ty=OT.PREFIX_UNARY, cg=False, alias=None)]),
     ]
     for kind, delegates, ins in probes:
-        e = Eng(kind, delegates, ins)
+        try:
+            e = Eng(kind, delegates, ins)
+        except Exception as ex:     # noqa
+            res.fail('oracle', 'engine-build', '[%s %s] factory.create() raised %r' % (kind, ins, ex),
+                     dict(kind=kind, delegates=delegates, inserts=ins, text=None))
+            continue
         check_table(e, drv, res)
         b = Batch(e, drv, res, hist)
         syms = [s_ for s_ in e.table if s_ not in ('[]', '{}')]
@@ -1169,7 +1184,13 @@ def run(env, res):
         finish_batch(b)
 
     # 4. a fixed probe: a suffix operator that shares its symbol with a binary operator
-    probe = Eng('default', False, [dict(ex='->', bin=True, sym='*', ty=OT.SUFFIX_UNARY, cg=True, alias=None)])
+    try:
+        probe = Eng('default', False, [dict(ex='->', bin=True, sym='*', ty=OT.SUFFIX_UNARY, cg=True, alias=None)])
+    except Exception as ex:     # noqa
+        res.fail('oracle', 'engine-build', 'factory.create() raised %r for the suffix/binary probe' % (ex,),
+                 dict(kind='default', delegates=False, inserts=[], text=None))
+        res.extra['histogram'] = hist
+        return res
     check_table(probe, drv, res)
     b = Batch(probe, drv, res, hist)
     for text in ['1 + 2 *', '1 . a *', '1 * * 2', '1 * - 2', '1 * -2 * 3', '1 -> 2 *', '$a * [ 1 ]', '$a * [ 1 ] * 2',
